@@ -321,7 +321,8 @@ class Soil:
         else:
             last = self.profile[self.profile.Layer == new_layer - 1].dzsum.values[-1]
             self.profile.loc[
-                (thickness + last >= self.profile.dzsum) & (self.profile.Layer.isna()),
+                (round(thickness + last, 2) >= round(self.profile.dzsum, 2))
+                & (self.profile.Layer.isna()),
                 "Layer",
             ] = new_layer
 
